@@ -312,6 +312,12 @@ func checkC11(c *Check) {
 					if strings.Contains(ms, "Requests") {
 						which = "Requests"
 					}
+					if !strings.Contains(ms, ".Resources.") {
+						// a map held in a local and attached to the container later: its role is the field it is stored in
+						if role := resourceListRole(fn, u.Map); role != "" {
+							which = role
+						}
+					}
 					// identify through the field the map was stored in
 					ups = append(ups, mu{which + "@" + fnName(fn), Sym(u.Key), Sym(u.Value), u})
 				}
@@ -807,4 +813,57 @@ func (c *Check) netPol(np *ssa.Function) {
 		}
 	}
 	c.Ob("R5", "the opened-port list starts empty for every service", app.Pos(), ok, "the port list is allocated outside the per-service loop: ports of earlier services leak into later services' policies")
+}
+
+// resourceListRole: "Limits" / "Requests" if the map value m (or the local it lives in) is stored into a field of
+// that name in fn; "" if not found or ambiguous.
+func resourceListRole(fn *ssa.Function, m ssa.Value) string {
+	same := func(v ssa.Value) bool {
+		if v == m {
+			return true
+		}
+		// two loads of the same single-assignment local
+		lu, ok1 := v.(*ssa.UnOp)
+		mu, ok2 := m.(*ssa.UnOp)
+		if ok1 && ok2 && lu.X == mu.X {
+			return true
+		}
+		// the local's stored value
+		if ok2 {
+			if a, isA := mu.X.(*ssa.Alloc); isA {
+				if st := singleStore(a); st != nil && st == v {
+					return true
+				}
+			}
+		}
+		if ok1 {
+			if a, isA := lu.X.(*ssa.Alloc); isA {
+				if st := singleStore(a); st != nil && st == m {
+					return true
+				}
+			}
+		}
+		return false
+	}
+	role := ""
+	eachInstr(fn, func(i ssa.Instruction) {
+		st, ok := i.(*ssa.Store)
+		if !ok || !same(st.Val) {
+			return
+		}
+		if fa, isFA := st.Addr.(*ssa.FieldAddr); isFA {
+			f := fieldName(fa.X.Type(), fa.Field)
+			if f == "Limits" || f == "Requests" {
+				if role != "" && role != f {
+					role = "?"
+				} else if role == "" {
+					role = f
+				}
+			}
+		}
+	})
+	if role == "?" {
+		return ""
+	}
+	return role
 }
